@@ -107,6 +107,7 @@ func RunC14(c *Ctx, r *Report) {
 	c.valueGuardRule(r, prefix+"value-guards")
 	c.noSilentSkipRule(r, prefix+"decode.no-silent-skip", "eap")
 	c.lostReceiverStoreRule(r, prefix+"set.receiver-by-pointer", "eap")
+	c.setterAtomicRule(r, prefix+"set.refused-leaves-untouched")
 	c.assignedNumbersRule(r, prefix+"assigned-numbers", "eap")
 	// decoding is a function of the octets, not of what an earlier call left in the object decoded into
 	{
